@@ -184,23 +184,46 @@ Definition spec_read (s : smap) (p : path) : rres := spec_read_strict s p.
 Definition spec_list (strict : bool) (s : smap) (prefix : bytes) : list bytes := listing strict s prefix.
 
 (* ---- operation sequences ---- *)
-Inductive op := OWrite (name content : bytes) | ORead (name : bytes) | OList (prefix : bytes).
-Inductive res := RW (ok : bool) | RR (r : rres) | RL (names : list bytes).
+Inductive op := OWrite (name content : bytes) | ORead (name : bytes) | OList (prefix : bytes)
+  | OCopy (dst src : bytes).           (* storage.Copy(ctx, bucket.Object(dst), bucket.Object(src)) *)
+Inductive res := RW (ok : bool) | RR (r : rres) | RL (names : list bytes) | RC (ok : bool).
 
 Definition op_ok (o : op) : bool :=
-  match o with OWrite n _ => name_ok n | ORead n => name_ok n | OList _ => true end.
+  match o with
+  | OWrite n _ => name_ok n | ORead n => name_ok n | OList _ => true
+  | OCopy d s => name_ok d && name_ok s
+  end.
+
+(* storage.Copy between two FS objects: src.NewReader (an absent source is an
+   error); when both are the same file nothing more is done (fix 11cc580);
+   otherwise dst.NewWriter (MkdirAll + os.Create) and io.Copy. *)
+Definition same_path (a b : path) : bool := match path_cmp a b with Eq => true | _ => false end.
+Definition copy (m : fs) (dst src : path) : bool * fs :=
+  match read m src with
+  | ROk c => if same_path dst src then (true, m) else write m dst c
+  | _ => (false, m)
+  end.
+(* specification: Copy(dst, src) = write(dst, read(src)), which for dst = src
+   leaves the map as it is *)
+Definition spec_copy (s : smap) (dst src : path) : bool * smap :=
+  match sget src s with
+  | Some c => if same_path dst src then (true, s) else spec_write s dst c
+  | None => (false, s)
+  end.
 
 Definition step_fs (m : fs) (o : op) : res * fs :=
   match o with
   | OWrite n c => let '(ok, m') := write m (components n) c in (RW ok, m')
   | ORead n => (RR (read m (components n)), m)
   | OList pre => (RL (list_names m pre), m)
+  | OCopy d sr => let '(ok, m') := copy m (components d) (components sr) in (RC ok, m')
   end.
 Definition step_spec (strict : bool) (s : smap) (o : op) : res * smap :=
   match o with
   | OWrite n c => let '(ok, s') := spec_write s (components n) c in (RW ok, s')
   | ORead n => (RR ((if strict then spec_read_strict else spec_read) s (components n)), s)
   | OList pre => (RL (spec_list strict s pre), s)
+  | OCopy d sr => let '(ok, s') := spec_copy s (components d) (components sr) in (RC ok, s')
   end.
 
 Fixpoint run_fs (m : fs) (ops : list op) : list res * fs :=
@@ -223,6 +246,7 @@ Definition deviating (s : smap) (o : op) : bool :=
   | ORead _ => false
   | OList pre => existsb (fun kv => has_prefix (join_path (fst kv)) pre && negb (walkable (fst kv))) s
   | OWrite _ _ => false
+  | OCopy _ _ => false
   end.
 Fixpoint no_deviation (s : smap) (ops : list op) : bool :=
   match ops with
